@@ -609,6 +609,64 @@ def issuing(ctx):
     ctx.prove("signs-only-with-chain-length-left", I, z3.And(signed, z3.Not(budget)), vars=vars_, replay=replay,
               desc="the issuing API signs only while every issuing group of the issuer has minChainLength >= 1")
     ctx.prove("issues-when-allowed", I, z3.And(sub.contained_in(iss), budget, z3.Not(signed)), vars=vars_, replay=replay)
+
+    # the chain-length budget written into what is signed: every issuing group of the issued ticket has 1 <= minChainLength <= (largest
+    # minChainLength of an issuing group of the issuer) - 1, i.e. each delegation step consumes budget
+    from ..values import Guarded, SDict, SList
+    present = [(z3.And(iss.v["has_cert_issue_permissions"], h), m) for h, a, ps, m in iss.groups]
+    top = z3.IntVal(-10)
+    for h, m in present:
+        top = z3.If(z3.And(h, m > top), m, top)
+
+    def walk(v, cond):
+        """[(condition, concrete SDict / SList / term)] behind guarded alternatives"""
+        if isinstance(v, Guarded):
+            return [y for c, x in v.alts for y in walk(x, z3.And(cond, I._lb(c)))]
+        return [(cond, v)]
+    over = []
+    for pc, _dt, _k, _sig, data in K.sign_calls:
+        for c0, tbs in walk(data.src, I._lb(pc)):
+            if not isinstance(tbs, SDict):
+                continue
+            f, gl = I.sdict_lookup(tbs, "certIssuePermissions")
+            for c1, lst in walk(gl, z3.And(c0, I._lb(f))):
+                if not isinstance(lst, SList):
+                    continue
+                for ci, g in lst.items:
+                    for c2, gd in walk(g, z3.And(c1, I._lb(ci))):
+                        fm, mv = I.sdict_lookup(gd, "minChainLength")
+                        for c3, m in walk(mv, z3.And(c2, I._lb(fm))):
+                            m = I.num(m) if hasattr(I, "num") else m
+                            over.append(z3.And(c3, z3.Or(m < 1, m > top - 1)))
+
+    def replay_budget(vals):
+        cd, icd = build_cert(vals, "subject"), build_cert(vals, "issuer")
+
+        signed_ = []
+
+        class B:
+            def sign(self, data, key):
+                signed_.append(data)
+                return ("ecdsaNistP256Signature", {"rSig": ("x-only", b"\x01" * 32), "sSig": b"\x02" * 32})
+        from unittest import mock
+        with mock.patch.object(CM.SECURITY_CODER, "encode_ToBeSignedCertificate", lambda d: repr(d).encode()), \
+                mock.patch.object(CM.SECURITY_CODER, "encode_etsi_ts_103097_certificate", lambda d: repr(d).encode()):
+            try:
+                res = OwnCertificate(certificate=icd, issuer=None, key_id=7).issue_certificate(B(), Certificate(certificate=cd))
+            except Exception as e:
+                return True, f"issue_certificate raised {type(e).__name__}: {e}"
+        if not signed_:
+            return False, "not issued"
+        top_ = max([g["minChainLength"] for g in icd["toBeSigned"].get("certIssuePermissions", [])] or [-10])
+        got = [g["minChainLength"] for g in res.certificate["toBeSigned"].get("certIssuePermissions", [])]
+        return any(m < 1 or m > top_ - 1 for m in got), \
+            f"issuer {summary(icd)['issue']} issued a ticket whose issuing groups carry minChainLength {got}; the issuer's largest is {top_}"
+    ctx.witness("reach-issued-with-issuing-groups", I, z3.And(signed, z3.Not(exc), z3.Or(*[z3.And(c, m >= 2) for c, m in present]),
+                                                            sub.v["has_cert_issue_permissions"], sub.groups[0][0]), vars=vars_,
+                validate=lambda v: not replay_budget(v)[0])
+    ctx.prove("issued-ticket-has-less-chain-length-than-its-issuer", I, cond_or(over), vars=vars_, replay=replay_budget,
+              desc="every issuing group written into an issued ticket has 1 <= minChainLength <= the issuer's largest minChainLength - 1 "
+                   "(groups that would fall below 1 are dropped), under an \"all\" issuer as well as under explicit issuing groups")
     ctx.bound("issuer with <= 2 issuing groups (all / explicit, chain lengths -2..5), subject with <= 2 application PSIDs and <= 2 requested issuing groups")
     ctx.stub("as K2; backend.sign recorded")
 
